@@ -4,6 +4,7 @@ import (
 	"fmt"
 	"os"
 	"path"
+	"path/filepath"
 	"sort"
 	"strings"
 	"testing"
@@ -20,6 +21,8 @@ import (
 type c5Sel struct {
 	Entries []string `json:"entries"`
 	All     bool     `json:"all,omitempty"`
+	// Sib: where the package of the second module stands among the entrypoints: "" (not selected) | first | last
+	Sib string `json:"sib,omitempty"`
 }
 
 type c5Gen struct {
@@ -30,6 +33,8 @@ type c5Gen struct {
 	Refs  []string `json:"refs,omitempty"`
 	// RotRefs: two packages that compete for one local import name; packages with an even path length reference both, the others only the second
 	RotRefs []string `json:"rotrefs,omitempty"`
+	// FmtLocal: a reference into the main module (import grouping depends on the module path the formatter is told)
+	FmtLocal string `json:"fmtlocal,omitempty"`
 }
 
 type c5Case struct {
@@ -37,6 +42,9 @@ type c5Case struct {
 	Gens []c5Gen  `json:"gens"`
 	Real []string `json:"real,omitempty"`
 	Sels []c5Sel  `json:"sels"`
+	// Sib: a second module (replace directive) with its own go version; its package can be generated in the same run, and what
+	// is generated for a package must not depend on which module's package came first
+	Sib *modspec.Mod `json:"sib,omitempty"`
 }
 
 var c5ClashRefs = []string{
@@ -76,6 +84,17 @@ func genC05(t *rapid.T) c5Case {
 	case 2:
 		c.Real = []string{"deepcopy"}
 	}
+	if rapid.IntRange(0, 3).Draw(t, "sibling") == 0 {
+		c.Mod.Go = rapid.SampledFrom([]string{"1.21", "1.22", "1.24"}).Draw(t, "maingo")
+		sib := modspec.Mod{Path: rapid.SampledFrom([]string{"corp/two", "acme.dev/one", "sib"}).Draw(t, "sibpath"), Go: rapid.SampledFrom([]string{"1.12", "1.16", "1.21"}).Draw(t, "sibgo")}
+		sib.Pkgs = []modspec.Pkg{{Dir: "pkg", Name: "sibpkg", Files: []modspec.GoFile{{Name: "types.go", Decls: []modspec.Decl{
+			{Kind: "struct", Name: "S0", Fields: []modspec.Field{{Names: []string{"A"}, Type: "int"}}}}}}}}
+		c.Sib = &sib
+		for i := range c.Gens {
+			c.Gens[i].State = append(c.Gens[i].State, "fmtsensitive")
+			c.Gens[i].FmtLocal = c.Mod.Path + "/internal/util.Helper"
+		}
+	}
 	// selections: singletons, pairs, all orders, and All through some entry
 	nsel := rapid.IntRange(2, 5).Draw(t, "nsel")
 	for i := 0; i < nsel; i++ {
@@ -89,6 +108,9 @@ func genC05(t *rapid.T) c5Case {
 			sel.Entries = append(sel.Entries, p.Dir)
 		}
 		sel.All = rapid.IntRange(0, 3).Draw(t, "all") == 0
+		if c.Sib != nil {
+			sel.Sib = rapid.SampledFrom([]string{"", "first", "last"}).Draw(t, "sibpos")
+		}
 		c.Sels = append(c.Sels, sel)
 	}
 	return c
@@ -119,6 +141,9 @@ func (g c5Gen) script(pkgOrder map[string]int) *script.Script {
 				text += fmt.Sprintf("var _$G_$T_rot%d @R%d\n\n", i, i)
 			}
 			pieces = append(pieces, script.Piece{Kind: "t", Text: text, Refs: g.RotRefs, Rotate: true})
+		case "fmtsensitive":
+			// text whose formatting depends on the go version and module path of the module it is generated into
+			pieces = append(pieces, script.Piece{Kind: "t", Text: "\nvar _$G_$T_mode = 0644\n\nvar _$G_$T_std @R0\n\nvar _$G_$T_local @R1\n", Refs: []string{"errors.New", g.FmtLocal}})
 		case "docforeign":
 			pieces = append([]script.Piece{{Kind: "docforeign"}}, pieces...)
 		}
@@ -138,9 +163,37 @@ func outputsOf(tree modspec.Tree, dir, base string) map[string]string {
 }
 
 func oracleC05(c c5Case) error {
-	dir := tempModule(&c.Mod)
-	defer os.RemoveAll(dir)
-	initial := mustSnapshot(dir)
+	var dir, snapRoot, prefix string
+	if c.Sib == nil {
+		dir = tempModule(&c.Mod)
+		defer os.RemoveAll(dir)
+		snapRoot = dir
+	} else {
+		root, err := os.MkdirTemp("", "vtmods")
+		if err != nil {
+			panic("harness: " + err.Error())
+		}
+		if real, err := filepath.EvalSymlinks(root); err == nil {
+			root = real
+		}
+		defer os.RemoveAll(root)
+		dir, snapRoot, prefix = filepath.Join(root, "main"), root, "main/"
+		main := c.Mod
+		gomod := "module " + main.Path + "\n\ngo " + main.Go + "\n\nrequire " + c.Sib.Path + " v0.0.0\n\nreplace " + c.Sib.Path + " => ../sib\n"
+		main.Extra = append(append([]modspec.File{}, main.Extra...), modspec.File{Name: "go.mod", Data: gomod})
+		for _, d := range []string{dir, filepath.Join(root, "sib")} {
+			if err := os.MkdirAll(d, 0o755); err != nil {
+				panic("harness: " + err.Error())
+			}
+		}
+		if err := main.Write(dir); err != nil {
+			panic("harness: " + err.Error())
+		}
+		if err := c.Sib.Write(filepath.Join(root, "sib")); err != nil {
+			panic("harness: " + err.Error())
+		}
+	}
+	initial := mustSnapshot(snapRoot)
 	globals := map[string][]string{}
 	var scripts []*script.Script
 	for _, g := range c.Gens {
@@ -156,12 +209,18 @@ func oracleC05(c c5Case) error {
 	}
 	var results []result
 	for si, sel := range c.Sels {
-		if err := initial.Restore(dir); err != nil {
+		if err := initial.Restore(snapRoot); err != nil {
 			panic("harness: restore: " + err.Error())
 		}
 		var entries []string
 		for _, e := range sel.Entries {
 			entries = append(entries, entry(e))
+		}
+		switch sel.Sib {
+		case "first":
+			entries = append([]string{c.Sib.Path + "/pkg"}, entries...)
+		case "last":
+			entries = append(entries, c.Sib.Path+"/pkg")
 		}
 		res := script.Run(script.RunSpec{Dir: dir, Entrypoints: entries, All: sel.All, Force: sel.All, Globals: globals, Base: "zz_generated", Scripts: scripts, Real: c.Real})
 		if res.LoadErr != "" {
@@ -173,14 +232,17 @@ func oracleC05(c c5Case) error {
 		if res.Failed {
 			return fmt.Errorf("selection %d %+v: Execute failed: %s", si, sel, res.Err)
 		}
-		after := mustSnapshot(dir)
+		after := mustSnapshot(snapRoot)
 		processed := sel.Entries
 		if sel.All {
 			processed = c.closure(sel.Entries)
 		}
 		r := result{sel: sel, outs: map[string]map[string]string{}}
 		for _, d := range processed {
-			r.outs[d] = outputsOf(after, d, "zz_generated")
+			r.outs[d] = outputsOf(after, path.Join(prefix, d), "zz_generated")
+		}
+		if sel.Sib != "" {
+			r.outs["(second module)/pkg"] = outputsOf(after, "sib/pkg", "zz_generated")
 		}
 		results = append(results, r)
 	}
@@ -231,6 +293,14 @@ func c5Features(c c5Case) []string {
 	}
 	if multi {
 		fs["multi-package-selection"] = true
+	}
+	if c.Sib != nil {
+		fs["second-module"] = true
+		for _, s := range c.Sels {
+			if s.Sib != "" {
+				fs["second-module-selected-"+s.Sib] = true
+			}
+		}
 	}
 	out := make([]string, 0, len(fs))
 	for k := range fs {
